@@ -600,7 +600,8 @@ pub fn main_with(checks: Vec<Check>, extra: &[(&str, ExtraCmd)]) -> ! {
             if args.len() < 3 {
                 usage();
             }
-            run_replay(&checks, Path::new(&args[2]), true)
+            let strict = args.iter().any(|a| a == "--strict");
+            run_replay(&checks, Path::new(&args[2]), true, strict)
         }
         other => {
             if let Some((_, f)) = extra.iter().find(|(n, _)| *n == other) {
@@ -643,10 +644,14 @@ pub struct ReplayFile {
     pub seed: u64,
     pub tier: String,
     pub case: Value,
+    /// Strict replays disable known-finding exclusions (used for the recorded reproductions of
+    /// known findings); ordinary replays run under the conditions of the search that found them.
+    #[serde(default)]
+    pub strict: bool,
 }
 
 /// Returns 1 if the case violates the property, 0 if it passes, 2 if inconclusive.
-fn run_replay(checks: &[Check], file: &Path, print: bool) -> i32 {
+fn run_replay(checks: &[Check], file: &Path, print: bool, force_strict: bool) -> i32 {
     quiet_panics();
     let rf: ReplayFile = match std::fs::read(file).ok().and_then(|b| serde_json::from_slice(&b).ok()) {
         Some(r) => r,
@@ -673,7 +678,7 @@ fn run_replay(checks: &[Check], file: &Path, print: bool) -> i32 {
         worker: 0,
         nworkers: 1,
         scratch: scratch.clone(),
-        strict: true,
+        strict: rf.strict || force_strict,
     };
     let out = part.replay(&ctx, &rf.case);
     let _ = std::fs::remove_dir_all(scratch_base());
@@ -815,6 +820,7 @@ fn run_parent(check: &Check, tier: Tier) -> i32 {
             seed,
             tier: tier.name().to_string(),
             case: v.case.clone(),
+            strict: false,
         };
         let bytes = serde_json::to_vec_pretty(&rf).unwrap();
         let path = replay_dir.join(format!("{:016x}.json", hash_bytes(&bytes)));
@@ -860,6 +866,7 @@ fn run_parent(check: &Check, tier: Tier) -> i32 {
             let st = std::process::Command::new(&exe)
                 .arg("replay")
                 .arg(&path)
+                .arg("--strict")
                 .stdout(std::process::Stdio::null())
                 .stderr(std::process::Stdio::null())
                 .status();
